@@ -341,7 +341,9 @@ class H2Protocol:
                     # Nothing more is sent on the stream, which is otherwise
                     # only forgotten when the last of its data has been
                     await buffer.close()
-                    del self.stream_buffers[event.stream_id]
+                    # (the send task may have forgotten it already, having
+                    # found the stream reset whilst the above waited)
+                    self.stream_buffers.pop(event.stream_id, None)
                     try:
                         self.priority.remove_stream(event.stream_id)
                     except priority.MissingStreamError:
